@@ -5,9 +5,7 @@ Lemma conns_len_leave s c : length (v_conns (step s (LLeave c))) = length (v_con
 Proof.
   cbn [step]. destruct (nth_error (v_conns s) c) as [x|]; [|reflexivity].
   destruct (k_client_open x); [|reflexivity].
-  match goal with |- context [settle ?z] => destruct (settle_fields z) as [_ [_ [Hc _]]] end.
-  rewrite Hc. unfold set_conns. cbn [v_conns].
-  clear. revert c. induction (v_conns s) as [|h t IH]; intros [|c]; cbn; auto.
+  rewrite settle_conns. unfold set_conns. cbn [v_conns]. apply upd_length.
 Qed.
 
 Lemma nth_leave s c c' :
@@ -17,7 +15,7 @@ Lemma nth_leave s c c' :
        | Some x => if k_client_open x
                    then Some {| k_client_open := false; k_session := k_waiting x;
                                 k_replies := k_replies x; k_hello := k_hello x;
-                                k_waiting := k_waiting x |}
+                                k_waiting := k_waiting x; k_gen := k_gen x |}
                    else Some x
        | None => None
        end
@@ -25,8 +23,7 @@ Lemma nth_leave s c c' :
 Proof.
   cbn [step]. destruct (nth_error (v_conns s) c) as [x|] eqn:Hx.
   - destruct (k_client_open x) eqn:Ho.
-    + match goal with |- context [settle ?z] => destruct (settle_fields z) as [_ [_ [Hc _]]] end.
-      rewrite Hc. unfold set_conns. cbn [v_conns]. rewrite nth_error_upd.
+    + rewrite settle_conns. unfold set_conns. cbn [v_conns]. rewrite nth_error_upd.
       destruct (Nat.eqb_spec c c') as [->|Hne]; [|reflexivity].
       assert (Hlt : c' < length (v_conns s)) by (apply nth_error_Some; congruence).
       apply Nat.ltb_lt in Hlt. rewrite Hlt. reflexivity.
@@ -104,7 +101,8 @@ Qed.
 (** The stop completes once the connected clients have gone - provided no session is inside a
     waiting command (see Thm_C19.C19_stop_waits_for_waiting_session for what happens otherwise): after the serving task was cancelled,
     when every client (in any order, each possibly more than once) has disconnected, the task is
-    done, the address stays closed and a Unix server's socket file is gone. *)
+    done, the address stays closed and a Unix server's socket file is gone.  This holds also after
+    overlapping restarts: the clients of the earlier runs are connections like the others. *)
 Theorem stop_completes : forall k tr cs,
   let s := run k tr in
   v_stopreq s = true -> nobody_waits s ->
@@ -122,16 +120,15 @@ Proof.
     cbn [map fold_left]. apply IH. cbn [step].
     destruct (nth_error (v_conns u) a) as [x|]; [|exact Hu].
     destruct (k_client_open x); [|exact Hu].
-    match goal with |- context [settle ?z] => destruct (settle_fields z) as [_ [_ [_ [_ Hq]]]] end.
-    rewrite Hq. exact Hu. }
+    rewrite settle_stopreq. exact Hu. }
   assert (Hlen : length (v_conns s') = length (v_conns s)).
   { unfold s'. clear. generalize s. induction cs as [|a t IH]; intros u; [reflexivity|].
     cbn [map fold_left]. rewrite IH. apply conns_len_leave. }
   assert (Hd : v_done s' = true).
-  { apply (inv_done_iff _ I' Hs'). unfold all_sessions_ended. apply forallb_forall.
-    intros x Hx. apply In_nth_error in Hx. destruct Hx as [c Hc].
+  { (* no session at all is left - of the latest run or of an earlier one *)
+    apply (inv_done_iff _ I' Hs'). apply run_ended_no_live. intros c x Hc Hse. exfalso.
     assert (Hlt : c < length (v_conns s)) by (rewrite <- Hlen; apply nth_error_Some; congruence).
-    rewrite (leave_list_over cs s c x I N (Hall c Hlt) Hc). reflexivity. }
+    rewrite (leave_list_over cs s c x I N (Hall c Hlt) Hc) in Hse. discriminate. }
   split; [exact Hd|]. split.
   - exact (proj1 (inv_stopped _ I' Hs')).
   - exact (inv_sock_gone _ I' Hd).
